@@ -5,10 +5,13 @@ From Nexus Require Export Router.Broker.
 Record registration := mkReg {
   reg_id : N; reg_proc : string; reg_match : string; reg_policy : string;
   reg_disclose : list N;   (* the callees that asked for disclosure of the caller (and were allowed to): per callee *)
-  reg_fwd_timeout : bool; reg_next : N; reg_callees : list N }.
+  reg_fwd_timeout : list N;   (* the callees that asked to handle call timeouts themselves (forward_timeout): per callee *)
+  reg_next : N; reg_callees : list N }.
 
 (** does callee [sid] of registration [r] get the caller's identity because it asked for it at REGISTER *)
 Definition reg_discloses (r : registration) (sid : N) : bool := nmem sid (reg_disclose r).
+(** did callee [sid] of registration [r] ask for forward_timeout at REGISTER *)
+Definition reg_forwards (r : registration) (sid : N) : bool := nmem sid (reg_fwd_timeout r).
 
 Definition callid := (N * N)%type.     (* (session id, request id) *)
 
@@ -93,7 +96,7 @@ Definition register (cfg : config) (d : dealer) (callee : session) (req : N) (op
         match match sget (d_map d k) proc with Some id => nget (d_regs d) id | None => None end with
         | None =>
             let id := idgen_next (d_idgen d) in
-            let r := mkReg id proc m invoke (if disclose then [sid] else []) fwd 0 [sid] in
+            let r := mkReg id proc m invoke (if disclose then [sid] else []) (if fwd then [sid] else []) 0 [sid] in
             let d1 := d_set_idgen d id in
             let d2 := d_set_regs d1 (nset (d_regs d1) id r) in
             let d3 := d_set_map d2 k (sset (d_map d2 k) proc id) in
@@ -108,7 +111,8 @@ Definition register (cfg : config) (d : dealer) (callee : session) (req : N) (op
             else
               let r' := mkReg (reg_id r) (reg_proc r) (reg_match r) (reg_policy r)
                               (if disclose then reg_disclose r ++ [sid] else reg_disclose r)
-                              (reg_fwd_timeout r) (reg_next r) (reg_callees r ++ [sid]) in
+                              (if fwd then reg_fwd_timeout r ++ [sid] else reg_fwd_timeout r)
+                              (reg_next r) (reg_callees r ++ [sid]) in
               let d1 := d_set_regs d (nset (d_regs d) (reg_id r) r') in
               let d2 := d_set_callee_regs d1 (callee_add_reg (d_callee_regs d1) sid (reg_id r)) in
               (d2, [(sid, RRegistered req (reg_id r))],
@@ -131,7 +135,7 @@ Definition del_callee_reg (d : dealer) (sid regid : N) : dealer * option bool :=
             (d_set_map d1 k (sdel (d_map d1 k) (reg_proc r)), Some true)
         | _ =>
             let r' := mkReg (reg_id r) (reg_proc r) (reg_match r) (reg_policy r) (nremove1 sid (reg_disclose r))
-                            (reg_fwd_timeout r) (reg_next r) cs in
+                            (nremove1 sid (reg_fwd_timeout r)) (reg_next r) cs in
             (d_set_regs d (nset (d_regs d) regid r'), Some false)
         end
   end.
@@ -365,7 +369,7 @@ Definition call (cfg : config) (lookup : N -> option session) (now : N) (d : dea
                         let inv1 := inv_set_inprogress inv in_progress in
                         let tmo := opt_int64 (inv_opts inv) "timeout" in
                         let local_timer := (0 <? tmo)%Z &&
-                          negb (sess_feature callee "callee" f_call_timeout && reg_fwd_timeout r) in
+                          negb (sess_feature callee "callee" f_call_timeout && reg_forwards r (inv_callee inv)) in
                         let '(d1, inv2) :=
                           if local_timer then
                             (* the timeout restarts: the previous chunk's timer is stopped *)
@@ -416,7 +420,7 @@ Definition call (cfg : config) (lookup : N -> option session) (now : N) (d : dea
                             let callee' := set_invgen callee invid in
                             let ikey := (callee_id, invid) in
                             let tmo := opt_int64 opts "timeout" in
-                            let fwd := sess_feature callee "callee" f_call_timeout && reg_fwd_timeout r in
+                            let fwd := sess_feature callee "callee" f_call_timeout && reg_forwards r callee_id in
                             let det4 := if (0 <? tmo)%Z && fwd then dset det3 "timeout" (VInt KInt64 tmo) else det3 in
                             let local_timer := (0 <? tmo)%Z && negb fwd in
                             let '(d1, timer) :=
